@@ -159,6 +159,14 @@ class Ctx(object):
 
     # ------------------------------------------------------------------ finish
     def finish(self, rule, level="model_checking", extra=None):
+        if getattr(self, "defer", False):
+            # thorough tier: several passes (seeds) accumulate into one report; see main.py
+            self._deferred = (rule, level, extra)
+            self._acc_replayed = getattr(self, "_acc_replayed", 0) + self.replayed
+            self.replayed = 0
+            return 0
+        self.replayed += getattr(self, "_acc_replayed", 0)
+        self.samples = self.samples[:12]
         wall = time.time() - self.t0
         for k, h in sorted(self.known_hit.items()):
             print("KNOWN-FINDING: property=%s %s [key=%s, %d case(s), e.g. %s]"
